@@ -11,6 +11,8 @@ RULE = ("arrays of 1-4 dims, unsorted int/float/str labels, float (NaN pattern n
         "axis by name or position. class = (operation, form, data kind, NaN pattern, label kind, ndim, axis position); trivial = none")
 ANCHORS = ["align.sort_axis", "dimarraycls.take_axis", "dimarraycls.compress_axis", "missingvalues.dropna", "missingvalues.fillna",
            "missingvalues.setna", "missingvalues._matches"]
+# entry points the workload calls itself; the other anchors are helpers behind them (counted as evidence only)
+ANCHORS_REQUIRED = ["align.sort_axis", "dimarraycls.take_axis", "dimarraycls.compress_axis", "missingvalues.dropna", "missingvalues.fillna", "missingvalues.setna"]
 FLOORS = {"quick": {"evaluations": 3000, "distinct": 1000, "outcome:dropna-minvalid": 300},
           "thorough": {"evaluations": 50000, "distinct": 1200}}
 WHAT = ['sort', 'sortkey', 'take_axis', 'compress', 'dropna', 'dropna', 'fillna', 'setna', 'setna']
